@@ -35,7 +35,8 @@ class _SharedFile:
         comm.Barrier()
 
     def create_dataset(self, name, shape, dtype=None, **kw):
-        _rendezvous(self._comm, 'create_dataset', name)
+        # object creation is collective WITH identical arguments on every member
+        _rendezvous(self._comm, 'create_dataset', (name, tuple(int(x) for x in shape), str(dtype)))
         with _lock:
             if name not in self._f:
                 self._f.create_dataset(name, shape, dtype=dtype, **kw)
